@@ -334,8 +334,14 @@ def r4(prog, rep):
     ok = canon('gfile.write(gridfile["hypnotoad_input_geqdsk_file_contents"][...])') in calls and canon('yamlfile.write(gridfile["hypnotoad_inputs_yaml"][...])') in calls
     rep.ob("R4", "the recreate script writes both stored strings verbatim", ok, rs.rel, "", key="prov/recreate")
     # the CLI passes the same dict to equilibrium, non-orthogonal and mesh options
-    calls = {script.code(n) for n in ast.walk(script.tree) if isinstance(n, ast.Call)}
-    ok = canon("tokamak.read_geqdsk(fh, settings=options, nonorthogonal_settings=options)") in calls and canon("BoutMesh(eq, options)") in calls
+    rg = [n for n in ast.walk(script.tree) if isinstance(n, ast.Call) and script.code(n.func) == "tokamak.read_geqdsk"]
+    bm = [n for n in ast.walk(script.tree) if isinstance(n, ast.Call) and script.code(n.func) == "BoutMesh"]
+    ok = False
+    if len(rg) == 1 and len(bm) == 1:
+        kw = {k.arg: script.code(k.value) for k in rg[0].keywords}
+        dict_name = kw.get("settings")
+        mesh_opts = script.code(bm[0].args[1]) if len(bm[0].args) > 1 else {k.arg: script.code(k.value) for k in bm[0].keywords}.get("user_options")
+        ok = dict_name is not None and isinstance(rg[0].keywords[0].value, ast.Name) and kw.get("nonorthogonal_settings") == dict_name and mesh_opts == dict_name
     rep.ob("R4", "the command-line entry point feeds one option dict to equilibrium, non-orthogonal and mesh options", ok, script.rel, "", key="prov/cli-dict")
     # the recorded non-orthogonal options are the ones in effect: rule instances of C15.R1
     from ..report import Premise
